@@ -32,12 +32,14 @@ pub fn read_input_file_and_xsd_files_at_path(current_file: &Path) -> WriterResul
         let entry = entry?;
         let path = entry.path();
         if path.is_file() && path.extension().unwrap_or_default() == "xsd" && path.file_name() != current_file.file_name() {
-            let file_name = path
-                .file_name()
-                .ok_or(WriterError::PathNotFound)?
-                .to_str()
-                .ok_or(WriterError::PathNotFound)?;
-            let xml = std::fs::read_to_string(&path)?;
+            // a sibling only matters when something imports it: one that cannot be read as text
+            // is left out, and an import that names it fails as for a missing file
+            let Some(file_name) = path.file_name().and_then(|n| n.to_str()) else {
+                continue;
+            };
+            let Ok(xml) = std::fs::read_to_string(&path) else {
+                continue;
+            };
             files.add(file_name, xml);
         }
     }
